@@ -7,7 +7,7 @@ import subprocess
 
 from .weave import REPO
 
-PROBED = {'C04', 'C12', 'C07'}
+PROBED = {'C04', 'C12', 'C07', 'C15'}
 
 
 def _run(env_extra, timeout=1500):
